@@ -155,7 +155,7 @@ def generic(pid, tier, seed, runs, oracle_fn, extra_worlds=None):
     with vlib.Scratch() as sc:
         for i in range(n):
             sspec, dspec = ew.gen_world(r)
-            fl = ew.gen_flags(r, allow_delete=(pid not in ("C01",) or r.random() < 0.3))
+            fl = ew.gen_flags(r, allow_delete=(pid not in ("C01",) or r.random() < 0.3), jobs=True)
             if pid == "C03":
                 fl.pop("it", None)
             sparse = make_sparse(r) if i % 9 == 4 else None
@@ -172,7 +172,7 @@ def generic(pid, tier, seed, runs, oracle_fn, extra_worlds=None):
         if raw.get("timeout"):
             viol.append({"world": i, "run": k, "why": "the run did not terminate", "flags": fl})
             continue
-        same = (o == m)
+        same = (o == m) if fl.get("j", 1) == 1 else (ew.norm_events(o) == ew.norm_events(m))     # several workers: any completion order
         if not same:
             diffs.append({"world": i, "run": k, "flags": fl, "case": case, "impl": o, "model": m, "stderr": raw["stderr"]})
         for f in oracle_fn(fl, raw, k, raws, metas, (i, k)):
